@@ -183,7 +183,13 @@ def settings(cfg, dev, thr):
 NOOBS = {"rows": 0, "trip": False, "t": 0, "val": 0, "fed": 0, "par": "", "ptype": "", "swid": 0}
 
 
-def run_history(cfg, net, dev, thr, hist):
+def jitter(seed, cfg, lvl):
+    """seeded offset in (-0.4, 0.4) levels for a non-threshold current level; the same level of one configuration
+    always gets the same offset (equal levels must give equal times)"""
+    return random.Random("%s|%s|%d" % (seed, json.dumps(cfg, sort_keys=True), lvl)).uniform(-0.4, 0.4)
+
+
+def run_history(cfg, net, dev, thr, hist, jseed=None):
     from pandapower.protection.run_protection import calculate_protection_times
     sw = cfg["sw"]
     at_thr = {cfg[n]: f for n, f in thr.items()}     # a current level that IS a threshold is fed as that very float
@@ -200,6 +206,8 @@ def run_history(cfg, net, dev, thr, hist):
                 str(dev)
             elif a["op"] == "eval":
                 f_i = at_thr.get(a["I"], a["I"] * U_I)
+                if jseed is not None and not a["at"]:
+                    f_i = (a["I"] + jitter(jseed, cfg, a["I"])) * U_I
                 f_j = a["J"] * U_I
                 net.res_switch_sc["ikss_ka"] = f_j
                 net.res_switch["i_ka"] = f_j
@@ -235,7 +243,8 @@ def run_history(cfg, net, dev, thr, hist):
 def observe(job):
     """one configuration, all its histories -> list of cases (one per history if job['split'] else one for all)"""
     cfg, hists = job["cfg"], job["hists"]
-    head = {"cfg": cfg, "built": False, "berr": "", "stored": {}, "same": {}, "runs": []}
+    jseed = job.get("jitter")
+    head = {"cfg": cfg, "built": False, "berr": "", "stored": {}, "same": {}, "runs": [], "jitter": jseed is not None}
     zero = ({"istart": 0, "istop": 0}, {"istart": True, "istop": True}) if cfg["kind"] == "FUSE" else \
         ({n: 0 for n in ("Is", "Ig", "Igg", "Tgg", "Tg", "Tms", "Tgrade")}, {n: True for n in ("Is", "Ig", "Igg")})
     head["stored"], head["same"] = zero
@@ -254,7 +263,7 @@ def observe(job):
         dev.__dict__.clear()
         dev.__dict__.update(saved)                      # every history starts from the freshly built device
         net.switch["closed"] = True
-        runs.append(run_history(cfg, net, dev, thr, h))
+        runs.append(run_history(cfg, net, dev, thr, h, jseed))
     if job.get("split"):
         return [dict(head, runs=[r]) for r in runs] or [head]
     return [dict(head, runs=runs)]
@@ -264,8 +273,7 @@ def observe(job):
 THOROUGH_A = {"ILevels = {8, 16, 24}": "ILevels = {8, 16, 24, 32}", "TLevels = {1, 3}": "TLevels = {1, 2, 4}",
               "DLevels = {2}": "DLevels = {1, 2}", "MLevels = {1}": "MLevels = {1, 2}", "Envs = {0, 11}": "Envs = {0, 1, 10, 11}",
               'StdSets = {{"a"}, {"m", "t"}, {"t"}}': 'StdSets = {{"a"}, {"m", "t"}, {"a", "m", "t"}, {"m"}, {"t"}}',
-              "NPoints = {3}": "NPoints = {3, 4}", "XLevels = {8, 16, 24}": "XLevels = {8, 16, 24, 32}",
-              "YLevels = {1, 2, 3}": "YLevels = {1, 2, 3, 4}"}
+              "NPoints = {3}": "NPoints = {3, 4}", "XLevels = {8, 16, 24}": "XLevels = {8, 16, 24, 32}"}
 THOROUGH_B = {"Depth = 2": "Depth = 3", "Places = {0, 1, 10}": "Places = {0, 1, 10, 20}"}
 
 
@@ -319,7 +327,8 @@ def run(tier, seed, replay=None):
     phase = {}
     if replay:
         c = replay["case"]
-        jobs = [{"cfg": c["cfg"], "hists": [r["hist"] for r in c["runs"]], "split": False}]
+        jobs = [{"cfg": c["cfg"], "hists": [r["hist"] for r in c["runs"]], "split": False,
+                 "jitter": replay.get("seed", seed) if c.get("jitter") else None}]
         nA = nB = 0
     else:
         rA, gA, dA = model("Protection.cfg", THOROUGH_A if tier == "thorough" else {})
@@ -333,12 +342,17 @@ def run(tier, seed, replay=None):
             g["split"] = False
         for g in gB:
             g["split"] = True
+        for g in gA + gB:
+            g["jitter"] = seed if tier == "thorough" else None
         jobs = gA + gB
         nA, nB = len(gA), len(gB)
         rnd = random.Random(seed)
         rnd.shuffle(jobs)           # balance the pool; the set of jobs does not depend on the seed
     phase["model_s"] = round(time.time() - t0, 1)
     t0 = time.time()
+    if len(jobs) >= 400:
+        from ..common import get_pool
+        get_pool(12)                # pool_map would size the pool by len(jobs) // 200; a job here is a whole configuration
     cases = [c for cs in pool_map(observe, jobs, chunksize=4) for c in cs]
     phase["replay_s"] = round(time.time() - t0, 1)
     t0 = time.time()
@@ -348,8 +362,10 @@ def run(tier, seed, replay=None):
     for name, i in fails:
         c = cases[i]
         errs = sorted({o["err"] for r in c["runs"] for o in r["obs"] if o["err"]} | ({c["berr"]} if c["berr"] else set()))
-        what = "%s: cfg=%s histories=%s%s" % (name, c["cfg"], [[(a["op"], a["I"]) for a in r["hist"]] for r in c["runs"]][:3],
-                                             (" errors=%s" % errs[:2]) if errs else "")
+        hs = [[(a["op"], a["I"]) if a["op"] == "eval" else a["op"] for a in r["hist"]] for r in c["runs"]]
+        if len(hs) > 1:      # a sweep case: every single action on the fresh device
+            hs = "single actions; eval at levels %s" % sorted(h[0][1] for h in hs if h and isinstance(h[0], tuple))
+        what = "%s: cfg=%s histories=%s%s" % (name, c["cfg"], hs, (" errors=%s" % errs[:2]) if errs else "")
         if name.startswith("Bind_"):
             k = "%s|%s|%s" % (name, c["cfg"]["kind"], feature(c["cfg"]))
             div.setdefault(k, [0, what])[0] += 1
@@ -392,6 +408,7 @@ def run(tier, seed, replay=None):
         "is about the device's function of the current it reads); the other table and the other switch's row hold a "
         "decoy current on the opposite side of the pick-up",
         "one device per net, two-line radial feeder with one external grid; relays on line switches only",
+        "thorough tier: non-threshold current levels are fed with a seeded offset of at most 0.4 level (6.25 A)",
         "every history starts from the freshly built device (attribute dict and switch states restored between histories)",
         "inverse-time and melting-curve values are decided as ordering / bracketing relations only (exact values of the "
         "integer-exponent IDMT curves are checked as a binding diagnostic)",
